@@ -7,13 +7,19 @@ from lib.checkdef import default_replay_cmd, run_property
 from lib.report import REPO, VENV_PY, VERIF
 
 
+_memo = {}
+
+
 def _replay(rep, r):
     if "I1prime.layout" not in r.name:
         return None, False, None
-    env = dict(os.environ, PYTHONPATH=os.path.join(REPO, "src") + os.pathsep + VERIF)
-    p = subprocess.run([VENV_PY, os.path.join(VERIF, "runtime", "c06_replay.py")], capture_output=True, text=True, env=env, timeout=300)
-    lines = [l for l in p.stdout.splitlines() if l.startswith("{")]
-    out = json.loads(lines[-1]) if lines else dict(confirmed=False, note=p.stderr[-300:])
+    if "out" not in _memo:
+        env = dict(os.environ, PYTHONPATH=os.path.join(REPO, "src") + os.pathsep + VERIF)
+        _memo["p"] = subprocess.run([VENV_PY, os.path.join(VERIF, "runtime", "c06_replay.py")], capture_output=True, text=True, env=env, timeout=300)
+        p = _memo["p"]
+        lines = [l for l in p.stdout.splitlines() if l.startswith("{")]
+        _memo["out"] = json.loads(lines[-1]) if lines else dict(confirmed=False, note=p.stderr[-300:])
+    out = _memo["out"]
     path = rep.write_replay(r.name, dict(obligation=r.to_json(), solver_output=r.model, confirmed=out.get("confirmed", False), replay=out))
     return path, out.get("confirmed", False), out
 
